@@ -3,7 +3,7 @@ import json, os, subprocess, sys, time, hashlib
 
 VERIF = os.path.dirname(os.path.dirname(os.path.abspath(__file__)))
 REPO = '/repo'
-WORK = os.path.join(VERIF, '.work')
+WORK = os.environ.get('VERIF_WORK') or os.path.join(VERIF, '.work')   # VERIF_WORK: separate scratch (development only)
 EVID = os.path.join(VERIF, 'evidence')
 REPLAYS = os.path.join(VERIF, 'replays')
 ENV = dict(os.environ, CARGO_NET_OFFLINE='true')
